@@ -62,6 +62,21 @@ Proof.
   - rewrite IH. rewrite <- (seq_shift R 0), flat_map_map. apply flat_map_ext. intros r. apply map_ext. intros t'. f_equal. lia.
 Qed.
 
+Lemma flat_map_ext_in' {A B} (f g : A -> list B) l : (forall x, In x l -> f x = g x) -> flat_map f l = flat_map g l.
+Proof.
+  induction l as [|x t IH]; intros H; [reflexivity|]. cbn [flat_map]. rewrite (H x (or_introl eq_refl)), IH; [reflexivity|].
+  intros y Hy. apply H. right. exact Hy.
+Qed.
+
+Lemma NoDup_map_inj_in {A B} (f : A -> B) (l : list A) :
+  (forall x y, In x l -> In y l -> f x = f y -> x = y) -> NoDup l -> NoDup (map f l).
+Proof.
+  intros Hinj Hnd. induction Hnd as [|x l Hx Hnd IH]; cbn; constructor.
+  - intros Hin. apply in_map_iff in Hin. destruct Hin as [y [E Hy]].
+    assert (y = x) by (apply Hinj; [right; exact Hy | left; reflexivity | exact E]). subst. contradiction.
+  - apply IH. intros a b Ha Hb. apply Hinj; right; assumption.
+Qed.
+
 Section F0C.
 Variable fb : flat.
 Hypothesis HF : frag0 fb = true.
@@ -187,7 +202,7 @@ Lemma slice_perm_spec a tc : a + tc <= T -> NoDup (slice a tc) ->
   forall t', t' < tc -> nth (Z.to_nat (nth t' (slice_perm a tc) 0%Z)) prod [] = nth (a + t') cs [].
 Proof.
   intros Hb Hnd. unfold slice_perm. split; [rewrite map_length; apply slice_length; exact Hb|]. split; [split|].
-  - apply FinFun.Injective_map_NoDup_in; [|exact Hnd].
+  - apply NoDup_map_inj_in; [|exact Hnd].
     intros x y Hx Hy E. apply Nat2Z.inj in E.
     destruct (index_of_spec x prod (slice_in_prod a tc x Hb Hx)) as [_ E1].
     destruct (index_of_spec y prod (slice_in_prod a tc y Hb Hy)) as [_ E2]. rewrite <- E1, <- E2, E. reflexivity.
@@ -230,18 +245,25 @@ Proof.
     apply map_ext_in. intros t' Ht'. apply in_seq in Ht'. unfold crossed_level. rewrite Hpn by lia.
     rewrite cs_nth by lia.
     assert (Hil : i < length c) by (apply nth_error_Some; congruence).
-    rewrite nth_indep with (d' := (fun f => lvl f (a + t')) 0) by (rewrite map_length; exact Hil).
-    rewrite (map_nth (fun f => lvl f (a + t'))). rewrite (nth_error_nth _ _ 0 Hi).
+    set (L := fun f => lvl f (a + t')).
+    rewrite (nth_indep (map L c) 0 (L 0)) by (rewrite map_length; exact Hil).
+    rewrite (map_nth L). rewrite (nth_error_nth _ _ 0 Hi). unfold L.
     symmetry. apply lvl_cell; [apply (f0_range fb (f0_unpack fb HF)); eapply nth_error_In; exact Hi | lia].
   - pose proof Hg as Hgu. apply In_nth_error in Hg. destruct Hg as [j Hj].
     rewrite (round_row_ind fb HF Hq tc _ j g Hle Hok Hj). unfold round_comp at 1. cbn [snd].
     assert (Hjl : j < length ubi) by (apply nth_error_Some; congruence).
     apply map_ext_in. intros t' Ht'. apply in_seq in Ht'. unfold ind_level.
-    rewrite nth_indep with (d' := (fun g => comb_rank (Z.of_nat (nlevels fb g)) (zlevels g a tc)) 0) by (rewrite map_length; exact Hjl).
-    rewrite (map_nth (fun g => comb_rank (Z.of_nat (nlevels fb g)) (zlevels g a tc))). rewrite (nth_error_nth _ _ 0 Hj).
+    set (F := fun g => comb_rank (Z.of_nat (nlevels fb g)) (zlevels g a tc)).
+    assert (Hnj : nth j (map F ubi) 0%Z = F g).
+    { rewrite (nth_indep (map F ubi) 0%Z (F 0)) by (rewrite map_length; exact Hjl).
+      rewrite (map_nth F). rewrite (nth_error_nth _ _ 0 Hj). reflexivity. }
+    rewrite Hnj. rewrite (nth_error_nth _ _ 0 Hj). unfold F.
     destruct (Hz g Hgu) as [_ Hc]. rewrite Hc. unfold zlevels.
-    rewrite nth_indep with (d' := (fun t' => Z.of_nat (lvl g (a + t'))) 0) by (rewrite map_length, seq_length; lia).
-    rewrite (map_nth (fun t' => Z.of_nat (lvl g (a + t')))). rewrite seq_nth by lia. rewrite Nat2Z.id. cbn [Nat.add].
+    set (G := fun t' => Z.of_nat (lvl g (a + t'))).
+    assert (Hnt : nth t' (map G (seq 0 tc)) 0%Z = G t').
+    { rewrite (nth_indep (map G (seq 0 tc)) 0%Z (G 0)) by (rewrite map_length, seq_length; lia).
+      rewrite (map_nth G). rewrite seq_nth by lia. reflexivity. }
+    rewrite Hnt. unfold G. rewrite Nat2Z.id.
     symmetry. apply lvl_cell; [apply (ubi_In fb HF Hq) in Hgu; apply Hgu | lia].
 Qed.
 
@@ -274,15 +296,15 @@ Lemma full_round_nodup r : r < R -> NoDup (slice (r * q) q).
 Proof.
   intros Hr. pose proof T_split as HT.
   assert (Hb : r * q + q <= R * q) by nia.
-  replace q with (Nat.min q (T - r * q)) at 2 by lia.
-  apply block_nodup; [apply Nat.mod_mul; lia | lia].
+  pose proof (block_nodup (r * q) ltac:(apply Nat.mod_mul; lia) ltac:(lia)) as H.
+  replace (Nat.min q (T - r * q)) with q in H by lia. exact H.
 Qed.
 
 Lemma leftover_nodup : lo <> 0 -> NoDup (slice (R * q) lo).
 Proof.
   intros Hne. pose proof T_split as HT. pose proof (f0_leftover_lt fb HF Hq) as Hlt.
-  replace lo with (Nat.min q (T - R * q)) at 2 by lia.
-  apply block_nodup; [apply Nat.mod_mul; lia | lia].
+  pose proof (block_nodup (R * q) ltac:(apply Nat.mod_mul; lia) ltac:(lia)) as H.
+  replace (Nat.min q (T - R * q)) with lo in H by lia. exact H.
 Qed.
 
 Lemma the_key_ok : key_ok fb the_key.
@@ -301,9 +323,10 @@ Proof.
   unfold decoded_row, the_key. cbn [k_rounds k_left].
   assert (Hrow : nth g s [] = map (fun t => get_cell s g t) (seq 0 T)).
   { unfold get_cell. rewrite <- Hlen. symmetry. apply map_nth_seq. }
-  rewrite Hrow. rewrite HT at 3. rewrite seq_app, map_app. f_equal.
+  rewrite Hrow. assert (Hseq : seq 0 T = seq 0 (R * q) ++ seq (0 + R * q) lo) by (rewrite <- seq_app; f_equal; exact HT).
+  rewrite Hseq, map_app. f_equal.
   - rewrite (seq_blocks (fun t => get_cell s g t) q R 0). rewrite flat_map_map.
-    apply flat_map_ext_in. intros r Hr. apply in_seq in Hr.
+    apply flat_map_ext_in'. intros r Hr. apply in_seq in Hr.
     destruct (round_comp_spec (r * q) q ltac:(nia) (le_n _) (full_round_nodup r ltac:(lia))) as [_ H].
     rewrite (H g Hg). apply map_ext. intros t'. reflexivity.
   - destruct (lo =? 0) eqn:E.
